@@ -247,6 +247,19 @@ func Run(ctx *common.Ctx) {
 			ctx.Sample(d)
 		}
 	}
+	// the block of default forms, as lambda values
+	for _, v := range defaultFormLambdas() {
+		term, d, ok := observeData(v, []int{20, 120, 20 + g.r.Intn(101)})
+		if !ok {
+			continue
+		}
+		ctx.Hist("block:default-form-lambda")
+		ctx.Meta.Evaluations++
+		distinct[d.Value+d.Form] = true
+		terms = append(terms, term)
+		descs = append(descs, d)
+	}
+	nvalues = len(terms)
 	checkCalls(ctx, rng)
 	// ---- sessions -------------------------------------------------------------------------------
 	dir, err := os.MkdirTemp("", "verif-c19-")
@@ -268,9 +281,32 @@ func Run(ctx *common.Ctx) {
 	if ctx.Thorough() {
 		nmod, next = 1500, 1200
 	}
+	// enumerated blocks first (every run, independent of the seed), then the random sessions
+	type sessSpec struct {
+		forms, probes []string
+		wild, wildText bool
+		tag            string
+	}
+	var specs []sessSpec
+	bs, bp := defaultFormSessions()
+	for k := range bs {
+		specs = append(specs, sessSpec{bs[k], bp[k], false, false, "block:default-form-session"})
+	}
+	is, ip := instanceSlotSessions()
+	for k := range is {
+		specs = append(specs, sessSpec{is[k], ip[k], false, false, "block:instance-slot-session"})
+	}
 	for i := 0; i < nmod; i++ {
 		wild := i%2 == 1
 		forms, probes, wildText := genSession(rng, ctx.Hist, wild, true)
+		tag := "session:modelled-tame"
+		if wild {
+			tag = "session:modelled-wild"
+		}
+		specs = append(specs, sessSpec{forms, probes, wild, wildText, tag})
+	}
+	for i, sp := range specs {
+		forms, probes, wild, wildText := sp.forms, sp.probes, sp.wild, sp.wildText
 		ts := time.Now()
 		o, err := runSession(dir, 100+i, base, forms, probes, wild)
 		if os.Getenv("VERIF_C19_TIMING") != "" && time.Since(ts) > 500*time.Millisecond {
@@ -291,11 +327,7 @@ func Run(ctx *common.Ctx) {
 		if !ok {
 			continue
 		}
-		if wild {
-			ctx.Hist("session:modelled-wild")
-		} else {
-			ctx.Hist("session:modelled-tame")
-		}
+		ctx.Hist(sp.tag)
 		ctx.Meta.Evaluations++
 		distinct[strings.Join(forms, " ")] = true
 		terms = append(terms, term)
@@ -334,7 +366,7 @@ func Run(ctx *common.Ctx) {
 		fmt.Fprintln(os.Stderr, "sessions done", time.Since(t0))
 	}
 	ctx.Meta.DistinctNontrivial = len(distinct)
-	ctx.Meta.Rule = "(a) values: half generated inside the guard (nested lists, dotted lists, adjustable vectors, arrays of rank 2-3, hash tables, lambdas; atoms: fixnums incl. int64 limits, bignums, ratios, floats, characters, strings with quotes/backslashes/newlines/UTF-8, keywords, type symbols), half unrestricted (also plain and odd symbols, small bignums, non-adjustable and empty vectors, rank-0 and zero-size arrays, character/list keys, list values, lambdas with doc strings); per value: LoadForm, the form evaluated, and for 5 margins in 20..120 (20, 120 and three random) plus the plain printer: pp.Append -> ReadOne -> Eval -> Equal. every fifth value is a top-level lambda whose body is generated code over all 46 head-symbol templates the pretty printer has layouts for (never evaluated). (b) function calls from a pool plus 40 generated code forms x 3 margins (judged on the implementation). (b2) object load forms (class, class with superclass, class instance, flavor, flavor overriding a default, flavor instance, package, generic function, function, macro) pretty printed at 3 margins and evaluated in a fresh process with probes. (c) sessions of 3..12 definition forms (defvar, defparameter, setq, defconstant, defun with 6 lambda-list shapes and generated bodies over 34 special forms (let*, multi-pair setq, when/unless, cond, block, dotimes/dolist/do/do*/dovector, with-..., funcall/apply of lambdas, case, setf, incf, push/pop, unwind-protect, ...), defmacro with let*/setq/cond bodies), half tame, half wild (symbol values, list constants, unbound variables, forward calls, wild doc strings, backquote, function quote, multi-entry hash tables): fresh process -> snapshot -> fresh process -> load form by form -> snapshot -> probes of every variable, constant, function (several argument lists), macro and doc string in both processes. (d) 110 tame sessions that also define packages (constants in them, variables holding them), chains of flavors (re-declared defaults), variables holding instances directly or in hash tables, functions making instances, generic functions with specialised methods and generated bodies (judged on the implementation; send, slot-value and make-load-form probes). distinct = distinct printed values / histories"
+	ctx.Meta.Rule = "(a) values: half generated inside the guard (nested lists, dotted lists, adjustable vectors, arrays of rank 2-3, hash tables, lambdas; atoms: fixnums incl. int64 limits, bignums, ratios, floats, characters, strings with quotes/backslashes/newlines/UTF-8, keywords, type symbols), half unrestricted (also plain and odd symbols, small bignums, non-adjustable and empty vectors, rank-0 and zero-size arrays, character/list keys, list values, lambdas with doc strings); per value: LoadForm, the form evaluated, and for 5 margins in 20..120 (20, 120 and three random) plus the plain printer: pp.Append -> ReadOne -> Eval -> Equal. every fifth value is a top-level lambda whose body is generated code over all 46 head-symbol templates the pretty printer has layouts for (never evaluated). (b) function calls from a pool plus 40 generated code forms x 3 margins (judged on the implementation). (b2) object load forms (class, class with superclass, class instance, flavor, flavor overriding a default, flavor instance, package, generic function, function, macro) pretty printed at 3 margins and evaluated in a fresh process with probes. (c) sessions of 3..12 definition forms (defvar, defparameter, setq, defconstant, defun with 6 lambda-list shapes and generated bodies over 34 special forms (let*, multi-pair setq, when/unless, cond, block, dotimes/dolist/do/do*/dovector, with-..., funcall/apply of lambdas, case, setf, incf, push/pop, unwind-protect, ...), defmacro with let*/setq/cond bodies), half tame, half wild (symbol values, list constants, unbound variables, forward calls, wild doc strings, backquote, function quote, multi-entry hash tables): fresh process -> snapshot -> fresh process -> load form by form -> snapshot -> probes of every variable, constant, function (several argument lists), macro and doc string in both processes. Modelled sessions also define one flavor without components and hold instances of it (init keywords, nested instances, the flavor object, lists, hash tables, lambdas in instance variables; (send v :set-x ...)). Enumerated on every run: the block of default forms (13 default shapes x {&optional,&key} x {defun, defmacro, lambda variable}; 26 lambda values) and the block of instance variable values (13 kinds x {init keyword, send, setq}). (d) 110 tame sessions that also define packages (constants in them, variables holding them), chains of flavors (re-declared defaults), variables holding instances directly or in hash tables, functions making instances, generic functions with specialised methods and generated bodies (judged on the implementation; send, slot-value and make-load-form probes). distinct = distinct printed values / histories"
 	// spread the (more expensive) session cases evenly over the shards
 	terms, descs = spread(terms, descs, nvalues)
 	header := "From Coq Require Import List String ZArith NArith Bool.\nImport ListNotations.\nFrom C19 Require Import Model Spec Corr.\n"
